@@ -432,6 +432,9 @@ def _replay_search(a):
     return False, None, None, None
 
 
+ONLY = r"\.frame\.|\.dtype_store\."      # the clauses of the re-verified contracts that belong to this property
+
+
 def run(rep, tier, seed):
     # frame (ownership) obligations: every contract of the other properties carries `frame.*` clauses; here a cross-section of
     # all public entry points is re-verified and only those clauses are kept
@@ -453,23 +456,48 @@ def run(rep, tier, seed):
     for c, mt in cs:
         bymod.setdefault(id(mt), (mt, []))[1].append(c)
     for mt, lst in bymod.values():
-        run_contracts(rep, lst, mt, tier=tier, pid="C19", replayers=[(r"frame|dtype_store", _replay_search)])
+        run_contracts(rep, lst, mt, tier=tier, pid="C19", replayers=[(r"frame|dtype_store", _replay_search)], only=ONLY)
     # landscape tools: the operands handed to snap_pl / lc_approx are observably unchanged (fields and buffers), proved against a
     # snap_pl contract that does not promise fresh objects
     from contracts import c09_tools
     for cs2, t2 in c09_tools.all_contracts(tier):
         cs2 = [c for c in cs2 if c.qualname in ("snap_pl", "lc_approx") and c.variant in ("given=", "given=start,stop,num_steps")]
         if cs2:
-            run_contracts(rep, cs2, t2, tier=tier, pid="C19", replayers=[(r"frame|dtype_store", _replay_search)])
+            run_contracts(rep, cs2, t2, tier=tier, pid="C19", replayers=[(r"frame|dtype_store", _replay_search)], only=ONLY)
     # plot_diagrams works on private single-precision copies: no store into the caller's arrays on any path
     from contracts.c20_plots import plot_diagrams_contracts
     cs3, t3 = plot_diagrams_contracts("quick")
-    run_contracts(rep, cs3[:2], t3, tier=tier, pid="C19", replayers=[(r"frame|dtype_store", _replay_search)])
+    run_contracts(rep, cs3[:2], t3, tier=tier, pid="C19", replayers=[(r"frame|dtype_store", _replay_search)], only=ONLY)
+    # second cross-section (constructors, landscape tools and norms, imager methods, kernels, transformers, the mGH lower-bound chain):
+    # the contracts of the other properties re-verified for their ownership clauses only
+    from contracts import c03_ctor, c04_images, c08_tools, c10_norms, c12_imager, c13_kernels, c18_transformers
+    more = [(c03_ctor.all_contracts, ["degrees=2,hom_deg=1,compute=True", "degrees=3,hom_deg=0,compute=False"]),
+            (c03_ctor.approx_ctor_contracts, ["degrees=2,hom_deg=1,given=", "degrees=3,hom_deg=2,given=start,stop"]),
+            (c08_tools.all_contracts, ["hom_deg=0", "flatten=True", "flatten=False"]),
+            (c08_tools.vectorize_contracts, None),
+            (c10_norms.all_contracts, ["p=1", "valid"]),
+            (c10_norms.approx_contracts, ["", "values:float", "valid"]),
+            (c04_images.c11_contracts, ["single,n_jobs=None,skew=True", "list2,n_jobs=2,skew=True"]),
+            (c12_imager.all_contracts, ["", "ps", "b", "p", "list2,skew=True"]),
+            (c13_kernels.all_contracts, ["", "corr", "low"]),
+            (c18_transformers.all_contracts, ["fresh", "vs fit;transform,skew=default"]),
+            (c05_mgh.lb_confirm_contracts, None),
+            (c09_tools.all_contracts, ["given=,m=3"])]
+    for fn, variants in more:
+        r = fn(tier if tier == "quick" else "quick")
+        for mcs, mt in ([r] if isinstance(r, tuple) else r):
+            lst = [c for c in mcs if c.module != "spec" and (variants is None or c.variant in variants)
+                   and not (fn is c09_tools.all_contracts and c.qualname != "average_approx")]
+            if lst:
+                run_contracts(rep, lst, mt, tier=tier, pid="C19", replayers=[(r"frame|dtype_store", _replay_search)], only=ONLY)
     # keep only ownership / dtype clauses in this property's ledger
-    keep = [o for o in rep.obligations if (".frame." in o["name"] or ".dtype_store." in o["name"] or o["name"].startswith("static:"))]
+    # (a function whose run stopped at a construct outside the engine's subset keeps an undecided `<function>` entry: its ownership
+    # clause was not generated, which must not read as "nothing to prove")
+    keep = [o for o in rep.obligations if (".frame." in o["name"] or ".dtype_store." in o["name"] or o["name"].startswith("static:")
+                                           or o["name"].endswith((".<function>", ".<engine>")))]
     dropped = len(rep.obligations) - len(keep)
     rep.obligations[:] = keep
-    rep.undecided[:] = [u for u in rep.undecided if ".frame." in u["name"] or ".dtype_store." in u["name"]]
+    rep.undecided[:] = [u for u in rep.undecided if ".frame." in u["name"] or ".dtype_store." in u["name"] or u["name"].endswith((".<function>", ".<engine>"))]
     for f in rep.functions.values():
         f["obligations"] = f["discharged"] = 0
     for o in keep:
